@@ -27,7 +27,7 @@ RULE = ("scenario = NDJSON byte stream of 1..12 lines (valid messages and junk o
 PROBES = ["junk_lines_while_child_never_reads_stdin", "child_half_closed_and_client_wrote", "consumer_listens_to_notifications_only", "child_exited_with_unread_output", "earlier_session_ended_mid_line", "legacy_request_stream_registered", "legacy_request_stream_abandoned", "burst_over_100_lines_in_one_read", "cut_inside_utf8_sequence", "cut_inside_crlf", "cut_right_after_lf", "junk_before_valid", "one_byte_chunks",
           "line_separator_chars_in_payload"]
 PROBES_THOROUGH = ["line_of_several_mib", "read_capped_at_max_bytes"]
-TIERS = {"quick": {"runs": 15000, "wall": 45.0}, "thorough": {"runs": 1000000, "wall": 560.0}}
+TIERS = {"quick": {"runs": 15000, "wall": 45.0}, "thorough": {"runs": 400000, "wall": 560.0}}
 ASSUMPTIONS = [
     "receive() returns exactly one piece the child wrote (the reader is at least as fast as the writer): every such schedule is realisable by a real pipe",
     "expected messages = lines that are valid UTF-8, valid JSON and satisfy an independent JSON-RPC 2.0 envelope grammar; JSON arrays are left to C13",
